@@ -5,18 +5,34 @@ package pathlock
 // Contracts for govc, the contract verifier under /verif (see /verif/DESIGN.md).
 // This file contains comments only; it adds no code under any build tag.
 
-// The per-path lock is only meaningful between goroutines; in the sequential executions the verifier considers,
-// Lock never blocks and neither call has an effect visible to the caller (assumed, not verified).
-// Lock typestate per (mutex, path): not re-entrant (a second Lock of a held path blocks for ever), Unlock of a path
-// that is not held panics. The ghost flag is what call-site assertions in the cache refer to.
-//@ spec plHeld(l *Mutex, path string) := gbool("pathheld", uf("plkey", l, path))
+// The per-path lock, as sequential typestate: a path is held when its entry exists in the table and that entry's
+// sync.Mutex is held. Lock of a free path makes it held (a Lock of a held path would block for ever: precondition),
+// Unlock of a held path frees it (Unlock of a free path panics: precondition); no other path changes. What 'held'
+// excludes in other goroutines is the meaning of sync.Mutex and is not verified.
+//@ syncmap Mutex.pathLocks key string val interface{} props C11
+//@ spec plMu(l *Mutex, path string) := l.pathLocks[path].(*sync.Mutex)
+//@ spec plInv(l *Mutex) := l != nil && forall(k, dom(l.pathLocks), isType(l.pathLocks[k], *sync.Mutex) && l.pathLocks[k].(*sync.Mutex) != nil)
+//@ spec plHeld(l *Mutex, path string) := in(path, dom(l.pathLocks)) && held(plMu(l, path))
+//@ spec plOthersSame(l *Mutex, path string) := forall(k, string, implies(k != path, in(k, dom(l.pathLocks)) == old(in(k, dom(l.pathLocks))) && l.pathLocks[k] == old(l.pathLocks[k])))
+
+//@ func New() (l *Mutex)
+//@   props C11
+//@   ensures "empty" l != nil && fresh(l) && plInv(l) && forall(k, string, !in(k, dom(l.pathLocks)))
+//@   nopanic
+
 //@ func (l *Mutex) Lock(path string)
-//@   assumed
-//@   requires l != nil && !plHeld(l, path)
-//@   modifies gbool("pathheld", uf("plkey", l, path))
-//@   ensures "held" plHeld(l, path)
+//@   props C11
+//@   requires plInv(l) && !plHeld(l, path)
+//@   modifies mapOf(l.pathLocks), held(plMu(l, path))
+//@   ensures "held" [C11] plHeld(l, path) && plInv(l)
+//@   ensures "others" [C11] plOthersSame(l, path)
+//@   ensures "entry" implies(old(in(path, dom(l.pathLocks))), l.pathLocks[path] == old(l.pathLocks[path])) && implies(!old(in(path, dom(l.pathLocks))), fresh(plMu(l, path)))
+//@   nopanic
+
 //@ func (l *Mutex) Unlock(path string)
-//@   assumed
-//@   requires l != nil && plHeld(l, path)
-//@   modifies gbool("pathheld", uf("plkey", l, path))
-//@   ensures "released" !plHeld(l, path)
+//@   props C11
+//@   requires plInv(l) && plHeld(l, path)
+//@   modifies held(plMu(l, path))
+//@   ensures "released" [C11] !plHeld(l, path) && plInv(l) && in(path, dom(l.pathLocks))
+//@   ensures "others" [C11] plOthersSame(l, path) && l.pathLocks[path] == old(l.pathLocks[path])
+//@   nopanic
